@@ -86,33 +86,27 @@ theorem clmul_fold_consts_are_xpow (p : BitVec 64) :
   ⟨clrem_eq_xpowMod p _ (by decide), clrem_eq_xpowMod p _ (by decide), clrem_eq_xpowMod p _ (by decide),
    clrem_eq_xpowMod p _ (by decide)⟩
 
-/-! ### error detection (used by C05) -/
+/-! ### error detection (used by C05; proofs in Lemmas/Crc.lean) -/
 
 /-- Any change confined to one byte of the message changes the CRC-32 (whatever the other bytes and the initial value). -/
 theorem crc32_byte_error_detected (a t : List UInt8) (b b' : UInt8) (h : b ≠ b') (init : BitVec 32) :
-    crc32Ref (a ++ b :: t) init ≠ crc32Ref (a ++ b' :: t) init := by
-  intro e
-  exact refRaw_byte_change P32 (by decide) (by decide) a t b b' h _ (BitVec.not_inj.mp e)
+    crc32Ref (a ++ b :: t) init ≠ crc32Ref (a ++ b' :: t) init := crc32_byte_error a t b b' h init
 
 theorem crc64_byte_error_detected (a t : List UInt8) (b b' : UInt8) (h : b ≠ b') (init : BitVec 64) :
-    crc64Ref (a ++ b :: t) init ≠ crc64Ref (a ++ b' :: t) init := by
-  intro e
-  exact refRaw_byte_change P64 (by decide) (by decide) a t b b' h _ (BitVec.not_inj.mp e)
+    crc64Ref (a ++ b :: t) init ≠ crc64Ref (a ++ b' :: t) init := crc64_byte_error a t b b' h init
 
-/-- A single flipped bit anywhere in the message changes the CRC-32. -/
-theorem crc32_flip_ne (m : List UInt8) (i : Nat) (hi : i < 8 * m.length) (init : BitVec 32) :
-    crc32Ref (flipBit m i) init ≠ crc32Ref m init := by
-  obtain ⟨a, b, t, hm, hf⟩ := flipBit_split m i (by omega)
-  rw [hf]
-  conv => rhs; rw [hm]
-  exact (crc32_byte_error_detected a t b _ (mask_ne b i) init).symm
+/-- A single flipped bit anywhere in the message changes the CRC-32 / CRC-64. -/
+theorem crc32_single_bit_detected (m : List UInt8) (i : Nat) (hi : i < 8 * m.length) (init : BitVec 32) :
+    crc32Ref (flipBit m i) init ≠ crc32Ref m init := crc32_flip_ne m i hi init
 
-theorem crc64_flip_ne (m : List UInt8) (i : Nat) (hi : i < 8 * m.length) (init : BitVec 64) :
-    crc64Ref (flipBit m i) init ≠ crc64Ref m init := by
-  obtain ⟨a, b, t, hm, hf⟩ := flipBit_split m i (by omega)
-  rw [hf]
-  conv => rhs; rw [hm]
-  exact (crc64_byte_error_detected a t b _ (mask_ne b i) init).symm
+theorem crc64_single_bit_detected (m : List UInt8) (i : Nat) (hi : i < 8 * m.length) (init : BitVec 64) :
+    crc64Ref (flipBit m i) init ≠ crc64Ref m init := crc64_flip_ne m i hi init
+
+/-- The slices of the compiled tables are related as crc32_tablegen.c / crc64_tablegen.c build them: slice `s+1` is
+    slice `s` advanced by eight more shift steps. -/
+theorem crc_table_slices (s b : Nat) :
+    tabS P32 (s + 1) b = step8 P32 (tabS P32 s b) ∧ tabS P64 (s + 1) b = step8 P64 (tabS P64 s b) :=
+  ⟨tabS_succ P32 s b, tabS_succ P64 s b⟩
 
 /-- non-vacuity / sanity: the classic check value of "123456789". -/
 example : crc32Ref [0x31,0x32,0x33,0x34,0x35,0x36,0x37,0x38,0x39] 0 = 0xCBF43926#32 := by decide +kernel
